@@ -1,6 +1,6 @@
 (* C02 proofs, part 4: every in-scope command preserves the chain invariant. *)
 From Coq Require Import List Arith Bool Lia.
-From StgV Require Import Model.StackSpec Model.LocatorSpec Proofs.CharsProofs Proofs.LocatorProofs
+From StgV Require Import Model.StackSpec Model.LocatorSpec Proofs.CharsProofs Proofs.NameProofs Proofs.LocatorProofs
   Proofs.ChainBasics Proofs.ChainTxn Proofs.ChainExec.
 Import ListNotations.
 Local Open Scope nat_scope.
@@ -499,4 +499,896 @@ Proof.
   destruct (begin_txn_inv op (opts CAllowIfSameTop true false true true false) Hok) as [H0 Hh0].
   destruct (commit_inv _ ps _ H0 Hh0 HndC Hnext) as [K' [(E1 & E2 & _) Hr]].
   apply rinvP_final in Hr. now rewrite E1, E2 in Hr.
+Qed.
+
+(* ---- uncommit ---- *)
+
+Definition cp_go (s : sstate) : list name -> list name -> bool :=
+  fix go (taken names : list name) : bool :=
+    match names with
+    | [] => true
+    | n :: rest =>
+        match stack_collides s n with
+        | Some _ => false
+        | None => if existsb (fun m => collides n m) taken then false else go (taken ++ [n]) rest
+        end
+    end.
+
+Lemma cp_go_spec : forall s names taken,
+  cp_go s taken names = true ->
+  NoDup names /\ forall n, In n names -> ~ In n (all_of s) /\ ~ In n taken.
+Proof.
+  intros s. induction names as [|n rest IH]; intros taken H.
+  - split; [constructor|intros n []].
+  - cbn in H. destruct (stack_collides s n) eqn:Esc; [discriminate|].
+    destruct (existsb (fun m => collides n m) taken) eqn:Et; [discriminate|].
+    destruct (IH _ H) as [Hnd Hall].
+    assert (Hnt : ~ In n taken).
+    { intros Hi. assert (existsb (fun m => collides n m) taken = true); [|congruence].
+      apply existsb_exists. exists n. split; [exact Hi|apply collides_refl]. }
+    split.
+    + constructor; [|exact Hnd]. intros Hi. destruct (Hall n Hi) as [_ Hn]. apply Hn.
+      apply in_or_app. right. now left.
+    + intros m [<-|Hm].
+      * split; [now apply stack_collides_none|exact Hnt].
+      * destruct (Hall m Hm) as [H1 H2]. split; [exact H1|]. intros Hi. apply H2. apply in_or_app. now left.
+Qed.
+
+Lemma check_patchnames_spec : forall s names,
+  check_patchnames s names = true -> NoDup names /\ forall n, In n names -> ~ In n (all_of s).
+Proof.
+  intros s names H. change (check_patchnames s names) with (cp_go s [] names) in H.
+  apply cp_go_spec in H as [H1 H2]. split; [exact H1|]. intros n Hn. now apply H2.
+Qed.
+
+Lemma combine_map_fst : forall (A B : Type) (a : list A) (b : list B),
+  length a = length b -> map fst (combine a b) = a.
+Proof.
+  intros A B. induction a as [|x a IH]; intros [|y b] H; cbn in *; try discriminate; [reflexivity|].
+  f_equal. apply IH. lia.
+Qed.
+
+Lemma combine_map_snd : forall (A B : Type) (a : list A) (b : list B),
+  length a = length b -> map snd (combine a b) = b.
+Proof.
+  intros A B. induction a as [|x a IH]; intros [|y b] H; cbn in *; try discriminate; [reflexivity|].
+  f_equal. apply IH. lia.
+Qed.
+
+Lemma uncommit_rfinal : forall op o pns commits,
+  opened_ok op ->
+  walk_down (w_objs (op_world op)) (op_base op) (length commits) = Some commits ->
+  length commits = length pns -> NoDup pns ->
+  (forall n, In n pns -> ~ In n (all_of (op_state op))) ->
+  rfinal (w_objs (op_world op)) (op_state op)
+         (uncommit_patches (rev (combine pns commits)) (begin_txn op o)).
+Proof.
+  intros op o pns commits Hok Hw Hlen Hnd Hdis.
+  destruct (begin_txn_inv op o Hok) as [H0 _].
+  apply walk_down_chain in Hw as [_ [b [Hch Hlast]]].
+  assert (E1 : map fst (rev (combine pns commits)) = rev pns).
+  { rewrite map_rev, combine_map_fst by lia. reflexivity. }
+  assert (E2 : map snd (rev (combine pns commits)) = rev commits).
+  { rewrite map_rev, combine_map_snd by lia. reflexivity. }
+  apply (uncommit_final (K0 op o) _ _ b H0).
+  - rewrite E1. now apply NoDup_rev.
+  - intros n Hn. rewrite E1 in Hn. apply in_rev in Hn. intros Hi. apply (Hdis n Hn).
+    unfold all_of. apply in_or_app. left. exact Hi.
+  - rewrite E2. exact Hch.
+  - rewrite E2. exact Hlast.
+Qed.
+
+Lemma step_uncommit : forall w number names, Inv w -> CInv w -> CInv (fst (run_uncommit w number names)).
+Proof.
+  intros w number names Hinv Hc. unfold run_uncommit.
+  match goal with |- CInv (fst (match ?p with Some _ => _ | None => _ end)) => destruct p as [pnames|] end;
+    [|exact Hc].
+  open_cmd Hinv Hc op Eop Hok. cbv zeta.
+  set (s := op_state op) in *.
+  destruct (negb (head_top_ok op)); [triv Hc Hok|].
+  match goal with |- CInv (fst (match ?P with inl r => r | inr l => _ end)) =>
+    assert (HP : match P with
+                 | inl r => CInv (fst r)
+                 | inr (commits, pns) =>
+                     walk_down (w_objs (op_world op)) (op_base op) (length commits) = Some commits
+                     /\ NoDup pns /\ (forall n, In n pns -> ~ In n (all_of s))
+                 end);
+    [|destruct P as [r|[commits pns]]; [exact HP|]] end.
+  { destruct number as [k|].
+    - destruct (walk_down _ _ (N.to_nat k)) as [commits|] eqn:Ew; [|triv Hc Hok].
+      destruct pnames as [|prefix [|? ?]]; [triv Hc Hok| |triv Hc Hok].
+      destruct (forallb _ _); [|triv Hc Hok].
+      destruct (check_patchnames s _) eqn:Ecp; [|triv Hc Hok].
+      apply check_patchnames_spec in Ecp as [Hnd Hdis].
+      pose proof (walk_down_chain _ _ _ _ Ew) as [Hlen _]. rewrite Hlen. auto.
+    - destruct (check_patchnames s pnames) eqn:Ecp; [|triv Hc Hok]. cbn [negb].
+      destruct (walk_down _ _ (length pnames)) as [commits|] eqn:Ew; [|triv Hc Hok].
+      apply check_patchnames_spec in Ecp as [Hnd Hdis].
+      pose proof (walk_down_chain _ _ _ _ Ew) as [Hlen _]. rewrite Hlen. auto. }
+  destruct HP as (Hw & Hnd & Hdis).
+  destruct (Nat.eqb (length commits) (length pns)) eqn:El; [|triv Hc Hok]. cbn [negb].
+  apply Nat.eqb_eq in El.
+  apply transact_cinv; [exact Hok|]. now apply uncommit_rfinal.
+Qed.
+
+(* ---- undo / redo / reset ---- *)
+
+Lemma find_undo_state_in : forall fuel objs so steps st,
+  find_undo_state fuel objs so steps = Some st -> exists so', state_of objs so' = Some st.
+Proof.
+  induction fuel as [|fuel IH]; intros objs so steps st H; cbn [find_undo_state] in H; [discriminate|].
+  destruct (get objs so) as [c|] eqn:Eg; [|discriminate].
+  destruct (c_state c) as [st0|] eqn:Ec; [|discriminate].
+  destruct (steps =? 0)%Z.
+  - injection H as <-. exists so. unfold state_of. now rewrite Eg.
+  - match type of H with match ?nx with Some _ => _ | None => _ end = _ => destruct nx as [steps'|] end; [|discriminate].
+    destruct (s_prev st0) as [prev|]; [|discriminate]. eapply IH. exact H.
+Qed.
+
+Lemma nth_prev_state_in : forall fuel objs so k st,
+  nth_prev_state fuel objs so k = Some st -> exists so', state_of objs so' = Some st.
+Proof.
+  induction fuel as [|fuel IH]; intros objs so k st H; cbn [nth_prev_state] in H; [discriminate|].
+  destruct (state_of objs so) as [st0|] eqn:Es; [|discriminate].
+  destruct k as [|k].
+  - injection H as <-. now exists so.
+  - destruct (s_prev st0) as [p|]; [|discriminate]. eapply IH. exact H.
+Qed.
+
+(* PRequire opens the recorded state without touching the store *)
+Lemma open_require_objs : forall w op,
+  open_stack PRequire w = Some op -> w_objs (op_world op) = w_objs w.
+Proof.
+  intros w op H. destruct (open_stack_cases _ _ _ H)
+    as [(so & s & _ & _ & _ & Hw & _)|[(objs' & so & [Hp|Hn] & _)|(Hn & _)]].
+  - now rewrite Hw.
+  - discriminate.
+  - unfold open_stack in H. rewrite Hn in H. discriminate.
+  - unfold open_stack in H. rewrite Hn in H. discriminate.
+Qed.
+
+Lemma reset_rfinal : forall w op o st so,
+  Inv w -> open_stack PRequire w = Some op -> opened_ok op ->
+  state_of (w_objs (op_world op)) so = Some st ->
+  rfinal (w_objs (op_world op)) (op_state op) (reset_to_state st (begin_txn op o)).
+Proof.
+  intros w op o st so Hinv Eop Hok Hst.
+  destruct (begin_txn_inv op o Hok) as [H0 _].
+  pose proof (open_require_objs w op Eop) as Eo.
+  assert (Hg : sgood (w_objs w) st). { rewrite Eo in Hst. eapply sgood_of_inv; eassumption. }
+  assert (G2 : NoDup (map fst (s_patches st))). { rewrite Eo in Hst. eapply inv_patches_nodup; eassumption. }
+  destruct Hg as (G1 & G3 & G4).
+  apply (reset_final (K0 op o) st _ H0).
+  - exact G2.
+  - intros n Hn. apply G3. unfold all_of. apply in_or_app. now left.
+  - cbn [begin_txn t_objs]. eapply (oo_cinv op Hok). exact Hst.
+Qed.
+
+Lemma step_undo_like : forall w steps hard msg,
+  Inv w -> CInv w -> CInv (fst (run_undo_like w steps hard msg)).
+Proof.
+  intros w steps hard msg Hinv Hc. unfold run_undo_like.
+  open_cmd Hinv Hc op Eop Hok. cbv zeta.
+  apply transact_cinv; [exact Hok|].
+  destruct (w_stack (op_world op)) as [so|]; [|cbn; apply ns_extends_refl].
+  destruct (find_undo_state _ _ _ _) as [st|] eqn:Ef; [|cbn; apply ns_extends_refl].
+  apply find_undo_state_in in Ef as [so' Hst].
+  eapply reset_rfinal; eassumption.
+Qed.
+
+Lemma step_reset : forall w entry hard,
+  Inv w -> CInv w -> CInv (fst (run_reset w entry None hard)).
+Proof.
+  intros w entry hard Hinv Hc. unfold run_reset.
+  destruct entry as [k|]; [|destruct hard; exact Hc].
+  open_cmd Hinv Hc op Eop Hok. cbv zeta.
+  destruct (w_stack (op_world op)) as [so|]; [|triv Hc Hok].
+  destruct (nth_prev_state _ _ _ _) as [st|] eqn:En; [|triv Hc Hok].
+  apply nth_prev_state_in in En as [so' Hst].
+  apply transact_cinv; [exact Hok|]. eapply reset_rfinal; eassumption.
+Qed.
+
+(* ---- refresh ---- *)
+
+Lemma new_applied_cases : forall n o t, (exists t', new_applied n o t = TOk t') \/ new_applied n o t = TPanic.
+Proof.
+  intros n o t. unfold new_applied. destruct (first_parent (t_objs t) o); [|now right].
+  destruct (t_top t); [|now right]. destruct (Nat.eqb _ _); [left; eauto|now right].
+Qed.
+
+Lemma nodup_insert_end : forall (a r : list name) x,
+  NoDup (a ++ r) -> ~ In x (a ++ r) -> NoDup ((a ++ [x]) ++ r).
+Proof.
+  intros a r x H Hx. apply nodup_app in H as (Ha & Hr & Hd).
+  assert (Hxa : ~ In x a) by (intros Hi; apply Hx, in_or_app; now left).
+  assert (Hxr : ~ In x r) by (intros Hi; apply Hx, in_or_app; now right).
+  apply nodup_app. repeat split.
+  - apply nodup_app. repeat split; [exact Ha|constructor; [tauto|constructor]|].
+    intros y Hy [<-|[]]. contradiction.
+  - exact Hr.
+  - intros y Hy. apply in_app_or in Hy as [Hy|[<-|[]]]; [now apply Hd|exact Hxr].
+Qed.
+
+Lemma snoc_split_unique : forall (A2 r L : list name) x,
+  A2 ++ x :: r = L ++ [x] -> NoDup (L ++ [x]) -> A2 = L /\ r = [].
+Proof.
+  intros A2 r L x E Hnd. destruct (@exists_last _ (x :: r)) as [r' [z Hz]]; [discriminate|].
+  rewrite Hz, app_assoc in E. apply app_inj_tail in E as [E ->].
+  destruct r as [|y r].
+  - destruct r' as [|q r']; [|destruct r'; discriminate]. rewrite app_nil_r in E. now split.
+  - exfalso. assert (Hin : In x L).
+    { rewrite <- E. destruct r' as [|q r']; [discriminate|]. injection Hz as <- _.
+      apply in_or_app. right. now left. }
+    apply nodup_app in Hnd as (_ & _ & Hd). apply (Hd x Hin). now left.
+Qed.
+
+Lemma s_refresh_temp_valid : validate s_refresh_temp = true.
+Proof. vm_compute. reflexivity. Qed.
+
+Lemma refresh_tmpname_fresh : forall l,
+  ~ In (match uniquify s_refresh_temp [] l with UOk n => n | UFuel => s_refresh_temp end) l.
+Proof.
+  intros l. destruct (uniquify s_refresh_temp [] l) as [n|] eqn:Eu.
+  - apply (uniquify_spec _ _ _ _ s_refresh_temp_valid) in Eu as [_ [Hn|Hf]]; [discriminate|].
+    intros Hi. rewrite Forall_forall in Hf. specialize (Hf n Hi). now rewrite collides_refl in Hf.
+  - exfalso. now apply (uniquify_never_out_of_fuel s_refresh_temp [] l).
+Qed.
+Lemma refresh_first : forall op1 tmpname tmpc w2,
+  opened_ok op1 -> ~ In tmpname (all_of (op_state op1)) ->
+  (exists p, parents_of (w_objs (op_world op1)) tmpc = [p]) ->
+  transact op1 default_opts (new_applied tmpname tmpc) MOp = (w2, X0) ->
+  CInv w2 /\ exists s2, cur_state w2 = Some s2 /\ sgood (w_objs w2) s2
+    /\ s_applied s2 = s_applied (op_state op1) ++ [tmpname]
+    /\ (forall m, pm_get (s_patches s2) m =
+                  if name_eqb tmpname m then Some tmpc else pm_get (s_patches (op_state op1)) m)
+    /\ store_extends (w_objs (op_world op1)) (w_objs w2).
+Proof.
+  intros op1 tmpname tmpc w2 Hok Hfresh Hpar Ht.
+  assert (Hna : ~ In tmpname (s_applied (op_state op1))).
+  { intros Hi. apply Hfresh. unfold all_of. apply in_or_app. now left. }
+  split.
+  { change w2 with (fst (w2, X0)). rewrite <- Ht.
+    eapply transact_cinv_rinv; [exact Hok|]. intros t0 H0 Hh0 E0. eapply rinvP_rinv.
+    apply new_applied_inv; [exact H0|exact Hh0| |]; subst t0; [exact Hna|exact Hpar]. }
+  unfold transact in Ht. destruct (negb (op_initialized op1)).
+  { destruct (new_applied _ _ _); discriminate. }
+  set (t0 := begin_txn op1 default_opts) in *.
+  destruct (new_applied_cases tmpname tmpc t0) as [[t' En]|En]; rewrite En in Ht; [|discriminate].
+  apply new_applied_ok in En.
+  apply execute_ok_state in Ht as (st1 & prev & th & Hp & Hth & Hcur & Hext & _).
+  assert (Hobjs : t_objs t' = w_objs (op_world op1)) by now rewrite En.
+  rewrite Hobjs in Hext.
+  set (s := op_state op1) in *. set (s2 := new_state t' st1 prev th) in *.
+  assert (Hpg : forall m, pm_get (s_patches s2) m =
+              if name_eqb tmpname m then Some tmpc else pm_get (s_patches s) m).
+  { intros m. unfold s2, new_state. cbn [s_patches]. rewrite pm_get_apply, Hp, En.
+    cbn [t_updated set_updated set_lists t_stack]. rewrite up_get_set.
+    destruct (name_eqb tmpname m); reflexivity. }
+  assert (Hall : all_of s2 = (s_applied s ++ [tmpname]) ++ s_unapplied s ++ s_hidden s).
+  { unfold s2, new_state, all_of. cbn [s_applied s_unapplied s_hidden]. now rewrite En. }
+  destruct (oo_good op1 Hok) as (G1 & G2 & G3). fold s in G1, G2, G3.
+  exists s2. split; [exact Hcur|]. split; [|split; [unfold s2, new_state; cbn [s_applied]; now rewrite En|split; [exact Hpg|exact Hext]]].
+  repeat split.
+  - rewrite Hall. now apply nodup_insert_end.
+  - intros n Hn. rewrite Hpg. destruct (name_eqb tmpname n) eqn:E; [discriminate|].
+    apply G2. rewrite Hall in Hn. unfold all_of.
+    rewrite <- app_assoc in Hn. apply in_app_or in Hn as [Hn|Hn]; [apply in_or_app; now left|].
+    destruct Hn as [Hn|Hn]; [subst; now rewrite name_eqb_refl in E|apply in_or_app; now right].
+  - intros n o Hn. rewrite Hpg in Hn. destruct (name_eqb tmpname n).
+    + injection Hn as <-. destruct Hpar as [p Hp']. exists p. now apply (parents_of_ext _ _ _ _ _ Hext).
+    + destruct (G3 n o Hn) as [p Hp']. exists p. now apply (parents_of_ext _ _ _ _ _ Hext).
+Qed.
+(* opening a world whose recorded state is known *)
+Lemma open_stack_cur : forall p w op s2,
+  open_stack p w = Some op -> p <> PForce -> cur_state w = Some s2 ->
+  op_state op = s2 /\ w_objs (op_world op) = w_objs w /\ w_branch (op_world op) = w_branch w
+  /\ w_stack (op_world op) = w_stack w /\ op_initialized op = true
+  /\ stack_base (w_objs w) (w_branch w) s2 = Some (op_base op).
+Proof.
+  intros p w op s2 H Hp Hcur.
+  assert (Hst : w_stack w <> None). { unfold cur_state in Hcur. destruct (w_stack w); [discriminate|discriminate]. }
+  destruct (open_stack_cases p w op H)
+    as [(so & s & Hso & Hs & Hb & Hw & Hst' & Hi)|[(objs' & so & [Hp'|Hn] & _)|(Hn & _)]]; try contradiction.
+  unfold cur_state in Hcur. rewrite Hso in Hcur. rewrite Hs in Hcur. injection Hcur as <-.
+  rewrite Hw. cbn. auto 10.
+Qed.
+
+Lemma refresh_second_rinv : forall K tmpname pn l t0,
+  tinv K t0 -> t_head t0 = None ->
+  t_applied t0 = (l ++ [pn]) ++ [tmpname] -> pn <> tmpname ->
+  rinv K
+    (match t_patch t0 pn, t_patch t0 tmpname with
+     | Some pc, Some tc =>
+         let old := get (t_objs t0) pc in
+         let new_tree := tree_of (t_objs t0) tc in
+         let t1 :=
+           if tree_eqb new_tree (tree_of (t_objs t0) pc) then (t0, None)
+           else
+             let '(objs', o) :=
+               put (t_objs t0)
+                   (plain (parents_of (t_objs t0) pc) new_tree
+                          (match old with Some c => c_meta c | None => 0%N end)
+                          (subj_of (t_objs t0) pc)) in
+             (set_objs t0 objs', Some o) in
+         let '(t2, _) := delete_patches (fun n => name_eqb n tmpname) (fst t1) in
+         match snd t1 with
+         | Some o => update_patch pn o t2
+         | None => TOk t2
+         end
+     | _, _ => TPanic
+     end).
+Proof.
+  intros K tmpname pn l t0 H0 Hh0 Ha Hne.
+  destruct (t_patch t0 pn) as [pc|] eqn:Epc; [|exact I].
+  destruct (t_patch t0 tmpname) as [tc|] eqn:Etc; [|exact I].
+  cbv zeta. destruct (tree_eqb _ _).
+  - cbn [fst snd].
+    destruct (delete_patches_inv K (fun n => name_eqb n tmpname) t0 H0 Hh0) as (H2 & Hh2 & _).
+    destruct (delete_patches _ t0) as [t2 inc]. cbn [fst] in *. cbn. auto.
+  - unfold put. cbn [fst snd].
+    set (c := plain _ _ _ _). set (t1 := set_objs t0 (t_objs t0 ++ [c])).
+    assert (H1 : tinv K t1). { apply tinv_set_objs; [exact H0|]. now apply ns_extends_app1. }
+    destruct (delete_patches_inv K (fun n => name_eqb n tmpname) t1 H1 Hh0)
+      as (H2 & Hh2 & popped & E1 & E2 & _ & E3).
+    pose proof (delete_patches_patch (fun n => name_eqb n tmpname) t1 pn (name_eqb_neq _ _ Hne)) as Hp2.
+    pose proof (delete_patches_objs (fun n => name_eqb n tmpname) t1) as Ho2.
+    destruct (delete_patches _ t1) as [t2 inc]. cbn [fst] in *.
+    change (t_applied t1) with (t_applied t0) in E1. rewrite Ha in E1.
+    assert (Ha2 : t_applied t2 = l ++ [pn]).
+    { pose proof (ti_nodup K t0 H0) as Hnd. rewrite Ha in Hnd.
+      destruct E3 as [->|[x [r [-> Hx]]]].
+      - exfalso. rewrite app_nil_r in E1. rewrite Forall_forall in E2.
+        assert (Hi : In tmpname (t_applied t2)). { rewrite <- E1. apply in_or_app. right. now left. }
+        specialize (E2 _ Hi). cbv beta in E2. now rewrite name_eqb_refl in E2.
+      - apply name_eqb_eq in Hx. subst x. symmetry in E1.
+        now destruct (snoc_split_unique _ _ _ _ E1 Hnd). }
+    eapply rinvP_rinv. apply (update_top_inv K pn _ pc l); [exact H2|exact Hh2|exact Ha2| |].
+    + rewrite Hp2. exact Epc.
+    + rewrite Ho2. unfold t1. cbn [t_objs set_objs]. unfold c. rewrite parents_put_new.
+      destruct (ti_single K t0 H0 _ _ Epc) as [p Hp]. rewrite Hp. symmetry.
+      apply (parents_of_ext (t_objs t0)); [apply store_extends_app|exact Hp].
+Qed.
+
+Lemma step_refresh : forall w, Inv w -> CInv w -> CInv (fst (run_refresh w)).
+Proof.
+  intros w Hinv Hc. unfold run_refresh.
+  open_cmd Hinv Hc op Eop Hok. cbv zeta.
+  set (s := op_state op) in *.
+  destruct (negb (head_top_ok op)); [triv Hc Hok|].
+  destruct (last_error (s_applied s)) as [pn|] eqn:El; [|triv Hc Hok].
+  destruct (w_unmerged (op_world op)); [triv Hc Hok|].
+  unfold put. set (tmpc := length (w_objs (op_world op))).
+  set (c := plain _ _ _ _). set (objs1 := w_objs (op_world op) ++ [c]).
+  set (tmpname := match uniquify s_refresh_temp [] (all_of s) with UOk n => n | UFuel => s_refresh_temp end).
+  pose proof (refresh_tmpname_fresh (all_of s)) as Hfresh. fold tmpname in Hfresh.
+  pose proof (opened_ok_with_objs op objs1 Hok (ns_extends_put_plain _ _ _ _ _)) as Hok1.
+  set (op1 := mkOpened _ _ _ _) in *.
+  destruct (transact op1 default_opts (new_applied tmpname tmpc) MOp) as [w2 x] eqn:Et1.
+  assert (C2 : CInv w2).
+  { change w2 with (fst (w2, x)). rewrite <- Et1.
+    eapply transact_cinv_rinv; [exact Hok1|]. intros t0 H0 Hh0 E0. eapply rinvP_rinv.
+    apply new_applied_inv; [exact H0|exact Hh0| |]; subst t0.
+    - intros Hi. apply Hfresh. unfold all_of. apply in_or_app. now left.
+    - eexists. apply parents_put_new. }
+  destruct x; try exact C2.
+  destruct (refresh_first op1 tmpname tmpc w2 Hok1 Hfresh) as (_ & s2 & Hcur & Hg2 & Ha2 & Hpg2 & Hext2);
+    [eexists; apply parents_put_new|exact Et1|].
+  destruct (open_stack PAllow w2) as [op2|] eqn:Eop2; [|exact C2].
+  assert (Hcg : cur_good w2). { intros s' Hs'. rewrite Hcur in Hs'. now injection Hs' as <-. }
+  destruct (open_stack_ok_gen _ _ _ Eop2 Hcg C2) as (Hok2 & _ & _).
+  destruct (open_stack_cur _ _ _ s2 Eop2 ltac:(discriminate) Hcur) as (Es2 & _).
+  apply last_error_split in El as [l El].
+  eapply transact_cinv_rinv; [exact Hok2|]. intros t0 H0 Hh0 E0.
+  apply (refresh_second_rinv _ tmpname pn l); [exact H0|exact Hh0| |].
+  - subst t0. cbn [begin_txn t_applied]. rewrite Es2, Ha2. cbn [op1 op_state]. fold s. now rewrite El.
+  - intros ->. apply Hfresh. unfold all_of. apply in_or_app. left. rewrite El. apply in_or_app. right. now left.
+Qed.
+
+(* ---------------------------------------------------------------- repair *)
+
+(* the commits visited by the first-parent walk, top first, with their patch names *)
+Definition item : Type := (oid * option name)%type.
+
+Definition names_of (items : list item) : list name :=
+  flat_map (fun it => match snd it with Some n => [n] | None => [] end) items.
+Definition poids (items : list item) : list oid :=
+  flat_map (fun it => match snd it with Some _ => [fst it] | None => [] end) items.
+Definition noids (items : list item) : list oid :=
+  flat_map (fun it => match snd it with Some _ => [] | None => [fst it] end) items.
+Definition has_patch (items : list item) : Prop := exists it, In it items /\ snd it <> None.
+
+Definition step_acc (st : list name * list oid * list oid) (it : item) : list name * list oid * list oid :=
+  let '(ap, pf, mb) := st in
+  match snd it with
+  | Some n => (ap ++ [n], pf ++ mb, [])
+  | None => (ap, pf, mb ++ [fst it])
+  end.
+
+Fixpoint wchain (objs : store) (c : oid) (items : list item) (stop : oid) : Prop :=
+  match items with
+  | [] => c = stop
+  | it :: r => fst it = c /\ exists p, parents_of objs c = [p] /\ wchain objs p r stop
+  end.
+
+Lemma repair_walk_spec : forall objs s base fuel c ap pf mb ar pr stop,
+  repair_walk fuel objs s base c ap pf mb = (ar, pr, stop) ->
+  exists items, wchain objs c items stop
+    /\ (forall it, In it items -> snd it = patch_of_commit s (fst it))
+    /\ exists ap' pf' mb', fold_left step_acc items (ap, pf, mb) = (ap', pf', mb')
+         /\ ar = ap' /\ (pr = pf' \/ pr = pf' ++ mb').
+Proof.
+  intros objs s base. induction fuel as [|fuel IH]; intros c ap pf mb ar pr stop H; cbn [repair_walk] in H.
+  - injection H as <- <- <-. exists []. cbn. split; [reflexivity|]. split; [tauto|].
+    exists ap, pf, mb. auto.
+  - destruct (parents_of objs c) as [|p [|q qs]] eqn:Ep.
+    + injection H as <- <- <-. exists []. cbn. split; [reflexivity|]. split; [tauto|].
+      exists ap, pf, mb. auto.
+    + set (it := (c, patch_of_commit s c) : item).
+      assert (Hst : (match patch_of_commit s c with
+                     | Some pn => (ap ++ [pn], pf ++ mb, [])
+                     | None => (ap, pf, mb ++ [c]) end) = step_acc (ap, pf, mb) it).
+      { unfold step_acc, it. cbn [fst snd]. now destruct (patch_of_commit s c). }
+      rewrite Hst in H. destruct (step_acc (ap, pf, mb) it) as [[ap1 pf1] mb1] eqn:Es.
+      destruct (Nat.eqb base p) eqn:Eb.
+      * injection H as <- <- <-. exists [it]. cbn [wchain fold_left In]. split; [|split].
+        -- split; [reflexivity|]. exists p. auto.
+        -- intros it' [<-|[]]. reflexivity.
+        -- exists ap1, pf1, mb1. rewrite Es. auto.
+      * apply IH in H as (items & Hw & Hl & ap' & pf' & mb' & Hf & Ha & Hp).
+        exists (it :: items). cbn [wchain fold_left In]. split; [|split].
+        -- split; [reflexivity|]. exists p. auto.
+        -- intros it' [<-|Hi]; [reflexivity|now apply Hl].
+        -- exists ap', pf', mb'. rewrite Es. auto.
+    + injection H as <- <- <-. exists []. cbn. split; [reflexivity|]. split; [tauto|].
+      exists ap, pf, mb. auto.
+Qed.
+
+Lemma acc_spec : forall items ap pf mb ap' pf' mb',
+  fold_left step_acc items (ap, pf, mb) = (ap', pf', mb') ->
+  ap' = ap ++ names_of items
+  /\ pf' ++ mb' = pf ++ mb ++ noids items
+  /\ incl pf pf'
+  /\ (has_patch items -> incl mb pf')
+  /\ (forall pre g suf, items = pre ++ (g, None) :: suf -> has_patch suf -> In g pf').
+Proof.
+  induction items as [|it r IH]; intros ap pf mb ap' pf' mb' H; cbn [fold_left] in H.
+  - injection H as <- <- <-. cbn. rewrite !app_nil_r. repeat split; try apply incl_refl.
+    + intros [it [[] _]].
+    + intros pre g suf E. destruct pre; discriminate.
+  - destruct it as [x [n|]]; cbn [step_acc snd fst] in H.
+    + apply IH in H as (H1 & H2 & H3 & H4 & H5). repeat split.
+      * rewrite H1. cbn. now rewrite <- app_assoc.
+      * rewrite H2. cbn. now rewrite <- app_assoc.
+      * intros y Hy. apply H3. apply in_or_app. now left.
+      * intros _ y Hy. apply H3. apply in_or_app. now right.
+      * intros pre g suf E Hs. destruct pre as [|it' pre]; [discriminate|]. injection E as _ E.
+        now apply (H5 pre g suf).
+    + apply IH in H as (H1 & H2 & H3 & H4 & H5).
+      assert (Hhp : has_patch ((x, None) :: r) -> has_patch r).
+      { intros [it [[<-|Hi] Hn]]; [now cbn in Hn|now exists it]. }
+      repeat split.
+      * exact H1.
+      * rewrite H2. cbn. now rewrite <- !app_assoc.
+      * exact H3.
+      * intros Hp y Hy. apply (H4 (Hhp Hp)). apply in_or_app. now left.
+      * intros pre g suf E Hs. destruct pre as [|it' pre].
+        -- injection E as <- <-. apply (H4 Hs). apply in_or_app. right. now left.
+        -- injection E as _ E. now apply (H5 pre g suf).
+Qed.
+
+(* down-chains: every element's only parent is the next one; the last one sits on [b] *)
+Fixpoint dch (objs : store) (l : list oid) (b : oid) : Prop :=
+  match l with
+  | [] => True
+  | x :: r => parents_of objs x = [hd b r] /\ dch objs r b
+  end.
+
+Lemma dch_chainl : forall objs l b, dch objs l b <-> chainl objs b (rev l).
+Proof.
+  intros objs. induction l as [|x r IH]; intros b; cbn [dch rev]; [cbn; tauto|].
+  rewrite chainl_app, IH. cbn [chainl].
+  assert (E : last (rev r) b = hd b r).
+  { destruct r as [|y r']; [reflexivity|]. cbn [rev hd]. apply last_snoc. }
+  rewrite E. tauto.
+Qed.
+
+Lemma dch_app : forall objs l1 l2 b, dch objs l1 (hd b l2) -> dch objs l2 b -> dch objs (l1 ++ l2) b.
+Proof.
+  intros objs l1 l2 b H1 H2. apply dch_chainl. rewrite rev_app_distr. apply chainl_app. split.
+  - now apply dch_chainl.
+  - apply dch_chainl in H1.
+    assert (E : last (rev l2) b = hd b l2).
+    { destruct l2 as [|y r']; [reflexivity|]. cbn [rev hd]. apply last_snoc. }
+    now rewrite E.
+Qed.
+
+Lemma dch_parent_in : forall objs l e x y,
+  dch objs l e -> In x l -> parents_of objs x = [y] -> In y l \/ y = e.
+Proof.
+  intros objs. induction l as [|z r IH]; intros e x y H Hx Hp; [destruct Hx|].
+  destruct H as [Hz Hr]. destruct Hx as [<-|Hx].
+  - rewrite Hz in Hp. injection Hp as <-. destruct r as [|q r']; [now right|left; right; now left].
+  - destruct (IH e x y Hr Hx Hp) as [Hi| ->]; [left; now right|now right].
+Qed.
+
+(* items: a run of non-patch commits, then the first patch *)
+Lemma first_patch_split : forall (items : list item) y rest,
+  poids items = y :: rest ->
+  exists run n r2, items = run ++ (y, Some n) :: r2 /\ Forall (fun it => snd it = None) run.
+Proof.
+  induction items as [|[x [n|]] r IH]; intros y rest H; cbn in H; [discriminate| |].
+  - injection H as <- _. exists [], n, r. split; [reflexivity|constructor].
+  - destruct (IH y rest H) as (run & n & r2 & -> & Hf). exists ((x, None) :: run), n, r2.
+    split; [reflexivity|]. constructor; [reflexivity|exact Hf].
+Qed.
+
+Lemma wchain_run : forall objs run c y n r2 stop,
+  wchain objs c (run ++ (y, Some n) :: r2) stop -> Forall (fun it : item => snd it = None) run ->
+  (run = [] /\ c = y)
+  \/ exists run' g, run = run' ++ [(g, None)] /\ parents_of objs g = [y].
+Proof.
+  intros objs. induction run as [|[x o] run IH]; intros c y n r2 stop H Hf.
+  - left. cbn in H. destruct H as [H _]. auto.
+  - right. inversion Hf as [|? ? Ho Hf']; subst. cbn in Ho. subst o.
+    cbn [app wchain fst] in H. destruct H as [-> [p [Hp Hw]]].
+    destruct (IH _ _ _ _ _ Hw Hf') as [[-> ->]|(run' & g & -> & Hg)].
+    + exists [], c. auto.
+    + exists ((c, None) :: run'), g. auto.
+Qed.
+
+Lemma gap_free : forall objs s (PR : oid -> Prop) e stop items c,
+  wchain objs c items stop ->
+  (forall it, In it items -> snd it = patch_of_commit s (fst it)) ->
+  (forall y, PR y -> patch_of_commit s y = None) ->
+  (forall pre g suf y, items = pre ++ (g, None) :: suf -> has_patch suf ->
+                       parents_of objs g = [y] -> PR y \/ y = e) ->
+  (forall pre y n suf, items = pre ++ (y, Some n) :: suf -> has_patch pre -> y <> e) ->
+  exists b, dch objs (poids items) b.
+Proof.
+  intros objs s PR e stop. induction items as [|[x [n|]] r IH]; intros c Hw Hl HPR H1 H2.
+  - exists O. exact I.
+  - cbn [wchain fst] in Hw. destruct Hw as [-> [p [Hp Hw]]].
+    destruct (IH p Hw) as [b Hb].
+    + intros it Hi. apply Hl. now right.
+    + exact HPR.
+    + intros pre g suf y E. apply (H1 ((c, Some n) :: pre)). now rewrite E.
+    + intros pre y n' suf E Hh. apply (H2 ((c, Some n) :: pre) y n' suf); [now rewrite E|].
+      destruct Hh as [it [Hi Hn]]. exists it. split; [now right|exact Hn].
+    + change (poids ((c, Some n) :: r)) with (c :: poids r).
+      destruct (poids r) as [|y rest] eqn:Ep.
+      * exists p. cbn. auto.
+      * exists b. cbn [dch hd]. split; [|exact Hb]. rewrite Hp. f_equal.
+        destruct (first_patch_split r y rest Ep) as (run & n' & r2 & -> & Hf).
+        destruct (wchain_run _ _ _ _ _ _ _ Hw Hf) as [[-> ->]|(run' & g & -> & Hg)]; [reflexivity|].
+        exfalso.
+        assert (Hy : patch_of_commit s y = Some n').
+        { symmetry. apply (Hl (y, Some n')). right. apply in_or_app. right. now left. }
+        destruct (H1 ((c, Some n) :: run') g ((y, Some n') :: r2) y) as [Hpr|He].
+        -- cbn. now rewrite <- app_assoc.
+        -- exists (y, Some n'). split; [now left|discriminate].
+        -- exact Hg.
+        -- apply HPR in Hpr. congruence.
+        -- apply (H2 ((c, Some n) :: run' ++ [(g, None)]) y n' r2); [reflexivity| |exact He].
+           exists (c, Some n). split; [now left|discriminate].
+  - cbn [wchain fst] in Hw. destruct Hw as [-> [p [Hp Hw]]].
+    change (poids ((c, None) :: r)) with (poids r). apply (IH p Hw).
+    + intros it Hi. apply Hl. now right.
+    + exact HPR.
+    + intros pre g suf y E. apply (H1 ((c, None) :: pre)). now rewrite E.
+    + intros pre y n' suf E Hh. apply (H2 ((c, None) :: pre) y n' suf); [now rewrite E|].
+      destruct Hh as [it [Hi Hn]]. exists it. split; [now right|exact Hn].
+Qed.
+
+Lemma remove_first_nodup : forall n l, NoDup l -> NoDup (remove_first n l) /\ ~ In n (remove_first n l).
+Proof.
+  intros n l. induction l as [|x l IH]; intros H; cbn; [split; [constructor|tauto]|].
+  inversion H as [|? ? Hx Hl]; subst. destruct (name_eqb x n) eqn:E.
+  - apply name_eqb_eq in E. subst. auto.
+  - apply name_eqb_false in E. destruct (IH Hl) as [I1 I2]. split.
+    + constructor; [|exact I1]. intros Hi. now apply remove_first_incl in Hi.
+    + intros [Hi|Hi]; [congruence|contradiction].
+Qed.
+
+Lemma is_perm_of_incl : forall new old x, is_perm_of new old = true -> In x new -> In x old.
+Proof.
+  induction new as [|n new IH]; intros old x H Hi; [destruct Hi|].
+  cbn in H. apply andb_true_iff in H as [Hm H]. destruct Hi as [<-|Hi]; [now apply mem_In|].
+  eapply remove_first_incl. eapply IH; eassumption.
+Qed.
+
+Lemma is_perm_of_nodup : forall new old, is_perm_of new old = true -> NoDup old -> NoDup new.
+Proof.
+  induction new as [|n new IH]; intros old H Hnd; [constructor|].
+  cbn in H. apply andb_true_iff in H as [_ H].
+  destruct (remove_first_nodup n old Hnd) as [R1 R2].
+  constructor; [|now apply (IH _ H)].
+  intros Hi. apply R2. eapply is_perm_of_incl; eassumption.
+Qed.
+
+Lemma patch_of_commit_spec : forall s c n,
+  patch_of_commit s c = Some n -> pm_get (s_patches s) n = Some c.
+Proof.
+  intros s c n H. unfold patch_of_commit in H. apply find_some in H as [_ H].
+  destruct (pm_get (s_patches s) n) as [po|]; [|discriminate]. apply Nat.eqb_eq in H. now subst.
+Qed.
+
+Lemma wchain_single : forall objs items c stop it,
+  wchain objs c items stop -> In it items -> exists p, parents_of objs (fst it) = [p].
+Proof.
+  intros objs. induction items as [|it0 r IH]; intros c stop it H Hi; [destruct Hi|].
+  cbn in H. destruct H as [E [p [Hp Hw]]]. destruct Hi as [<-|Hi]; [rewrite E; eauto|].
+  eapply IH; eassumption.
+Qed.
+
+Lemma noids_in : forall (items : list item) y, In y (noids items) -> In (y, None) items.
+Proof.
+  induction items as [|[x [n|]] r IH]; intros y H; cbn in H; [destruct H|right; now apply IH|].
+  destruct H as [<-|H]; [now left|right; now apply IH].
+Qed.
+
+Lemma poids_names : forall s (items : list item),
+  (forall it, In it items -> snd it = patch_of_commit s (fst it)) ->
+  map (patch_oid s) (names_of items) = poids items
+  /\ forall n, In n (names_of items) -> pm_get (s_patches s) n <> None.
+Proof.
+  intros s. induction items as [|[x [n|]] r IH]; intros Hl; cbn.
+  - split; [reflexivity|tauto].
+  - destruct IH as [I1 I2]; [intros it Hi; apply Hl; now right|].
+    assert (Hx : pm_get (s_patches s) n = Some x).
+    { apply patch_of_commit_spec. symmetry. apply (Hl (x, Some n)). now left. }
+    split.
+    + unfold patch_oid at 1. rewrite Hx. now f_equal.
+    + intros m [<-|Hm]; [congruence|now apply I2].
+  - apply IH. intros it Hi. apply Hl. now right.
+Qed.
+
+Lemma has_patch_hd : forall (pre suf : list item) d,
+  has_patch pre -> exists x n, In (x, Some n) pre /\ hd d (poids (pre ++ suf)) = x
+                               /\ exists m, hd_error (names_of (pre ++ suf)) = Some m /\ m = n.
+Proof.
+  induction pre as [|[x [n|]] r IH]; intros suf d [it [Hi Hn]]; [destruct Hi| |].
+  - exists x, n. cbn. split; [now left|]. split; [reflexivity|]. now exists n.
+  - destruct Hi as [<-|Hi]; [now cbn in Hn|].
+    destruct (IH suf d) as (x' & n' & H1 & H2 & H3); [now exists it|].
+    exists x', n'. cbn. split; [now right|]. split; assumption.
+Qed.
+
+Lemma make_ok_valid : forall lower_s raw lower limit nm,
+  make lower_s raw lower limit = Ok nm -> validate nm = true.
+Proof.
+  intros lower_s raw lower limit nm H. unfold make in H.
+  match type of H with match from_str ?f with _ => _ end = _ => destruct (from_str f) as [n|] eqn:E end;
+    [|discriminate].
+  injection H as <-. unfold from_str in E. destruct (validate _) eqn:Ev; [|discriminate].
+  now injection E as <-.
+Qed.
+
+Record rrep (objs0 : store) (s0 : sstate) (boids : list oid) (top0 : oid) (t : txn) (done : list oid)
+  : Prop := mkRrep {
+  rr_objs : t_objs t = objs0;
+  rr_stack : t_stack t = s0;
+  rr_nodup : NoDup (t_applied t);
+  rr_has : forall n, In n (t_applied t) -> t_patch t n <> None;
+  rr_oids : toids t = boids ++ done;
+  rr_chain : chainl objs0 top0 done;
+  rr_top0 : top0 = last boids (t_base_oid t)
+}.
+
+Lemma last_app2 : forall (A : Type) (a b : list A) d, last (a ++ b) d = last b (last a d).
+Proof.
+  intros A a b d. destruct b as [|y b]; [now rewrite app_nil_r|].
+  destruct (@exists_last _ (y :: b)) as [b' [z ->]]; [discriminate|].
+  now rewrite app_assoc, !last_snoc.
+Qed.
+
+Lemma rrep_top : forall objs0 s0 boids top0 t done,
+  rrep objs0 s0 boids top0 t done -> t_top t = Some (last done top0).
+Proof.
+  intros objs0 s0 boids top0 t done H. rewrite (t_top_spec t (rr_has _ _ _ _ _ _ H)).
+  rewrite (rr_oids _ _ _ _ _ _ H), last_app2, (rr_top0 _ _ _ _ _ _ H). reflexivity.
+Qed.
+
+Lemma rrep_step : forall objs0 s0 boids top0 t done pn c,
+  rrep objs0 s0 boids top0 t done ->
+  (exists p, parents_of objs0 c = [p]) -> ~ In pn (t_applied t) ->
+  match new_applied pn c t with
+  | TOk t' => rrep objs0 s0 boids top0 t' (done ++ [c])
+  | TPanic => True
+  | _ => False
+  end.
+Proof.
+  intros objs0 s0 boids top0 t done pn c H [p Hp] Hn. unfold new_applied.
+  rewrite (rrep_top _ _ _ _ _ _ H). unfold first_parent. rewrite (rr_objs _ _ _ _ _ _ H), Hp. cbn [hd_error].
+  destruct (Nat.eqb p (last done top0)) eqn:E; [|exact I]. apply Nat.eqb_eq in E.
+  set (t' := set_updated _ _).
+  assert (Hpat : forall m, t_patch t' m = if name_eqb pn m then Some c else t_patch t m).
+  { intros m. unfold t_patch, t'. tproj. rewrite up_get_set. now destruct (name_eqb pn m). }
+  destruct H as [X1 X2 X3 X4 X5 X6 X7]. constructor.
+  - exact X1.
+  - exact X2.
+  - change (t_applied t') with (t_applied t ++ [pn]). apply nodup_app.
+    repeat split; [exact X3|constructor; [tauto|constructor]|]. intros x Hx [<-|[]]. contradiction.
+  - intros m Hm. change (t_applied t') with (t_applied t ++ [pn]) in Hm. rewrite Hpat.
+    destruct (name_eqb pn m) eqn:Em; [discriminate|]. apply X4.
+    apply in_app_or in Hm as [Hm|[<-|[]]]; [exact Hm|]. now rewrite name_eqb_refl in Em.
+  - unfold toids. change (t_applied t') with (t_applied t ++ [pn]). rewrite map_app. cbn [map].
+    unfold toid at 2. rewrite Hpat, name_eqb_refl. rewrite app_assoc. f_equal.
+    rewrite <- X5. apply map_ext_in. intros m Hm. unfold toid. rewrite Hpat.
+    rewrite name_eqb_neq; [reflexivity|]. intros ->. contradiction.
+  - apply chainl_snoc; [exact X6|]. rewrite Hp. now f_equal.
+  - exact X7.
+Qed.
+
+Section RepairFold.
+  Variable lower_s : str -> str.
+
+  Definition repair_step (r : tres) (c : oid) : tres :=
+    tbind r (fun t =>
+      match make lower_s (subj_of (t_objs t) c) true (Some 30%N) with
+      | Ok nm =>
+          match uniquify nm [] (t_all t) with
+          | UOk pn => new_applied pn c t
+          | UFuel => TPanic
+          end
+      | _ => TPanic
+      end).
+
+  Lemma repair_fold_panic : forall cs, fold_left repair_step cs TPanic = TPanic.
+  Proof. induction cs as [|c cs IH]; [reflexivity|exact IH]. Qed.
+
+  Lemma repair_fold : forall objs0 s0 boids top0 cs t done,
+    rrep objs0 s0 boids top0 t done ->
+    (forall c, In c cs -> exists p, parents_of objs0 c = [p]) ->
+    match fold_left repair_step cs (TOk t) with
+    | TOk t' => rrep objs0 s0 boids top0 t' (done ++ cs)
+    | TPanic => True
+    | _ => False
+    end.
+  Proof.
+    intros objs0 s0 boids top0. induction cs as [|c cs IH]; intros t done H Hs.
+    - cbn. now rewrite app_nil_r.
+    - cbn [fold_left]. unfold repair_step at 2. cbn [tbind].
+      destruct (make lower_s _ true _) as [nm| |] eqn:Em; try (now rewrite repair_fold_panic).
+      destruct (uniquify nm [] (t_all t)) as [pn|] eqn:Eu; [|now rewrite repair_fold_panic].
+      apply make_ok_valid in Em.
+      apply (uniquify_spec _ _ _ _ Em) in Eu as [_ [Hn|Hf]]; [discriminate|].
+      assert (Hpn : ~ In pn (t_applied t)).
+      { intros Hi. rewrite Forall_forall in Hf.
+        assert (Ha : In pn (t_all t)) by (unfold t_all; apply in_or_app; now left).
+        specialize (Hf pn Ha). now rewrite collides_refl in Hf. }
+      pose proof (rrep_step _ _ _ _ _ _ pn c H (Hs c (or_introl eq_refl)) Hpn) as Hstep.
+      destruct (new_applied pn c t) as [t'| | |]; try contradiction.
+      + specialize (IH t' (done ++ [c]) Hstep (fun c' Hc' => Hs c' (or_intror Hc'))).
+        now rewrite <- app_assoc in IH.
+      + now rewrite repair_fold_panic.
+  Qed.
+End RepairFold.
+
+Lemma names_of_app : forall a b, names_of (a ++ b) = names_of a ++ names_of b.
+Proof. intros a b. unfold names_of. apply flat_map_app. Qed.
+
+Lemma names_of_in : forall (items : list item) x n, In (x, Some n) items -> In n (names_of items).
+Proof.
+  intros items x n H. unfold names_of. apply in_flat_map. exists (x, Some n). split; [exact H|now left].
+Qed.
+
+(* the walk's result, repaired: the final applied list is a chain *)
+Lemma repair_rfinal : forall lower_s op o nb fuel ar pr stop U Hd,
+  opened_ok op ->
+  repair_walk fuel (w_objs (op_world op)) (op_state op) (op_base op) (w_branch (op_world op)) [] [] []
+    = (ar, pr, stop) ->
+  rfinal (w_objs (op_world op)) (op_state op)
+    (tbind (repair_appliedness (rev ar) U Hd (begin_txn op o))
+       (fun t0 => fold_left (repair_step lower_s) (rev pr) (TOk (set_base t0 (Some nb))))).
+Proof.
+  intros lower_s op o nb fuel ar pr stop U Hd Hok Hw.
+  set (objs := w_objs (op_world op)) in *. set (s := op_state op) in *.
+  apply repair_walk_spec in Hw as (items & Hwc & Hl & ap' & pf' & mb' & Hf & -> & Hpr).
+  apply acc_spec in Hf as (Hap & Hpm & _ & _ & Hincl). cbn [app] in Hap, Hpm. subst ap'.
+  destruct (poids_names s items Hl) as [Hpo Hhas].
+  unfold repair_appliedness.
+  destruct (is_perm_of _ _) eqn:Eperm; [|exact I]. cbn [tbind].
+  set (t0 := begin_txn op o) in *.
+  assert (HndA : NoDup (rev (names_of items))).
+  { assert (Hall : NoDup (t_all t0)). { unfold t0, t_all. cbn [begin_txn t_applied t_unapplied t_hidden]. apply (oo_good op Hok). }
+    pose proof (is_perm_of_nodup _ _ Eperm Hall) as Hn. now apply nodup_app in Hn as [? _]. }
+  set (t1 := set_base (set_lists t0 (rev (names_of items)) U Hd) (Some nb)).
+  set (top0 := hd nb (poids items)).
+  assert (Hprn : forall y, In y pr -> In (y, None) items).
+  { intros y Hy. apply noids_in. rewrite <- Hpm. destruct Hpr as [-> | ->]; [apply in_or_app; now left|exact Hy]. }
+  assert (H1 : rrep objs s (rev (poids items)) top0 t1 []).
+  { constructor; try reflexivity.
+    - exact HndA.
+    - intros n Hn. change (t_patch t1 n) with (pm_get (s_patches s) n). apply Hhas.
+      now apply in_rev.
+    - rewrite app_nil_r. unfold toids. change (t_applied t1) with (rev (names_of items)).
+      rewrite <- Hpo, <- map_rev. apply map_ext. reflexivity.
+    - change (t_base_oid t1) with nb. unfold top0. destruct (poids items) as [|y r]; [reflexivity|].
+      cbn [rev hd]. symmetry. apply last_snoc. }
+  assert (Hsingle : forall c, In c (rev pr) -> exists p, parents_of objs c = [p]).
+  { intros c Hc. apply in_rev in Hc. apply Hprn in Hc.
+    apply (wchain_single _ _ _ _ _ Hwc Hc). }
+  pose proof (repair_fold lower_s objs s _ top0 (rev pr) t1 [] H1 Hsingle) as Hfold.
+  fold t1. destruct (fold_left (repair_step lower_s) (rev pr) (TOk t1)) as [t'| | |]; try contradiction;
+    [|exact I].
+  cbn [app] in Hfold. destruct Hfold as [R1 R2 R3 R4 R5 R6 R7]. cbn [rfinal].
+  split; [|split; [rewrite R1; apply ns_extends_refl|exact R2]].
+  split; [exact R4|].
+  (* the guards make pr a down-chain onto top0 *)
+  assert (Hg : dch objs pr top0). { apply dch_chainl. exact R6. }
+  rewrite R1, R5.
+  assert (Hch : exists b, dch objs (pr ++ poids items) b).
+  { destruct (poids items) as [|e rest] eqn:Ep.
+    - exists nb. rewrite app_nil_r. exact Hg.
+    - assert (Hgf : exists b, dch objs (poids items) b).
+      { apply (gap_free objs s (fun y => In y pr) e stop items _ Hwc Hl).
+        - intros y Hy. apply Hprn in Hy. symmetry. apply (Hl _ Hy).
+        - intros pre g suf y E Hs Hp.
+          assert (Hgp : In g pr).
+          { destruct Hpr as [-> | ->]; [|apply in_or_app; left]; now apply (Hincl pre g suf). }
+          unfold top0 in Hg. cbn [hd] in Hg.
+          apply (dch_parent_in _ _ _ _ _ Hg Hgp Hp).
+        - intros pre y n suf E Hhp Hy.
+          destruct (has_patch_hd pre ((y, Some n) :: suf) nb Hhp) as (x & ne & Hin & Hhd & m & Hm & ->).
+          assert (Hhd' : hd nb (poids items) = x) by (rewrite E; exact Hhd).
+          rewrite Ep in Hhd'. cbn [hd] in Hhd'. clear Hhd. subst x y.
+          assert (Hne : Some ne = Some n).
+          { assert (A1 : In (e, Some ne) items) by (rewrite E; apply in_or_app; now left).
+            assert (A2 : In (e, Some n) items) by (rewrite E; apply in_or_app; right; now left).
+            apply Hl in A1. apply Hl in A2. cbn [fst snd] in A1, A2. congruence. }
+          injection Hne as <-.
+          (* the name occurs twice *)
+          apply NoDup_rev in HndA. rewrite rev_involutive in HndA.
+          rewrite E, names_of_app in HndA. apply nodup_app in HndA as (_ & _ & Hdis).
+          apply (Hdis ne); [eapply names_of_in; exact Hin|]. cbn. now left. }
+      destruct Hgf as [b Hb]. rewrite Ep in Hb. exists b. apply dch_app; [|exact Hb].
+      unfold top0 in Hg. exact Hg. }
+  destruct Hch as [b Hb]. exists b. apply dch_chainl in Hb. now rewrite rev_app_distr in Hb.
+Qed.
+
+Lemma step_repair : forall lower_s w, Inv w -> CInv w -> CInv (fst (run_repair lower_s w)).
+Proof.
+  intros lower_s w Hinv Hc. unfold run_repair.
+  open_cmd Hinv Hc op Eop Hok. cbv zeta.
+  destruct (repair_walk _ _ _ _ _ _ _ _) as [[ar pr] stop] eqn:Ew.
+  apply transact_cinv; [exact Hok|].
+  exact (repair_rfinal lower_s op _ _ _ ar pr stop _ _ Hok Ew).
+Qed.
+
+Theorem step_chain : forall lower_s w c,
+  in_scope c = true -> Inv w ->
+  (forall so s, state_of (w_objs w) so = Some s -> chain_ok (w_objs w) s) ->
+  (forall so s, state_of (w_objs (fst (step lower_s w c))) so = Some s ->
+                chain_ok (w_objs (fst (step lower_s w c))) s).
+Proof.
+  intros lower_s w c Hs Hinv Hc. change (CInv (fst (step lower_s w c))). change (CInv w) in Hc.
+  destruct c; cbn [step].
+  - now apply step_init.
+  - now apply step_new.
+  - now apply step_refresh.
+  - now apply step_push.
+  - now apply step_pop.
+  - now apply step_goto.
+  - now apply step_float.
+  - now apply step_sink.
+  - now apply step_delete.
+  - now apply step_hide.
+  - now apply step_unhide.
+  - now apply step_rename.
+  - now apply step_commit.
+  - now apply step_uncommit.
+  - now apply step_clean.
+  - now apply step_spill.
+  - unfold run_undo. destruct (n <? 1)%Z; [exact Hc|now apply step_undo_like].
+  - unfold run_redo. destruct (n =? 0)%N; [exact Hc|]. destruct (isize_max <? n)%N; [exact Hc|].
+    now apply step_undo_like.
+  - destruct ranges; [discriminate|]. now apply step_reset.
+  - now apply step_repair.
+  - now apply step_log_clear.
+  - now apply step_inspect.
+  - now apply step_git.
+  - now apply step_git.
+  - now apply step_git.
+  - now apply step_git.
+  - now apply step_git.
 Qed.
